@@ -124,6 +124,10 @@ func cmdVerify(args []string) {
 		specs = append(specs, *spec)
 	}
 	t0 := time.Now()
+	if err := loadSpecs(filepath.Join(*verif, "spec")); err != nil {
+		fmt.Fprintln(os.Stderr, err)
+		os.Exit(2)
+	}
 	w, err := loadWorld(*repo, specs)
 	if err != nil {
 		fmt.Fprintln(os.Stderr, err)
